@@ -1700,7 +1700,9 @@ class EnumNode(AstNode):
             # evaluate value
             if member.value is not None:
                 try:
-                    cvalue = int(todict.print_node(member.value))
+                    # Constants are printed as decimal (C octal).
+                    cvalue = int(todict.print_node_identifier(
+                        member.value, {}, None))
                     fvalue = cvalue
                     value_is_int = True
                 except ValueError:
